@@ -1,6 +1,18 @@
 #!/usr/bin/env python3
 import json,sys
 pid=sys.argv[1]
+rnd=int(sys.argv[2]) if len(sys.argv)>2 else 1
+import os
+slots=('a','b') if rnd==1 else ('c','d')
+prev=''
+if rnd>1:
+    items=[]
+    for x in ('a','b'):
+        mp='/verif/seeded/%s-%s/meta.json'%(pid,x)
+        if os.path.exists(mp):
+            try: items.append('  - '+json.load(open(mp)).get('summary','')[:420].replace('\n',' '))
+            except Exception: pass
+    if items: prev='\nTwo changes were already produced for this property by someone else; yours must have DIFFERENT root causes and touch different logic (ideally different functions/files among the anchored code, or a different clause of the property):\n'+'\n'.join(items)+'\n'
 for l in open('/verif/properties.jsonl'):
     p=json.loads(l)
     if p['id']==pid: break
@@ -15,9 +27,10 @@ Statement: {p['statement']}
 Scope (what it quantifies over): {p['quantifier']['text']}
 Code it is anchored in: {', '.join(p['anchors']['files'])}
 
+{prev}
 YOUR TASK: produce TWO different, independent, realistic changes to the rqlite source (not to its tests) each of which BREAKS this property while the code still compiles and the EXISTING tests of the affected packages still pass (run them: at least `go1.26.8 test -count=1` for every package you touch, and say which you ran). Think of the kind of bug a competent developer could introduce in a refactoring, optimisation or feature patch and that code review and the existing test-suite would not catch. The changes must need something specific in order to manifest — a particular interleaving, a crash or fault at a particular point, a multi-step sequence of operations, an unusual input, a boundary value, or two cooperating sites that each look fine alone — NOT something that ordinary use would expose at once. Keep each change small (a few lines to a few dozen lines). The two changes should have different root causes in different parts of the relevant code.
 
-For each change deliver, in /tmp/seed-{pid}-out/a/ and /tmp/seed-{pid}-out/b/:
+For each change deliver, in /tmp/seed-{pid}-out/{slots[0]}/ and /tmp/seed-{pid}-out/{slots[1]}/:
   * patch.diff — `git diff` of the change relative to the worktree HEAD (source files only; must apply with `git apply` to a clean checkout of HEAD);
   * a demonstration — a Go test file (say demo_test.go, with a comment at the top naming the package directory it must be copied into and the `go test -run` command) or a small program, that FAILS with the change applied and PASSES without it; verify both directions yourself;
   * meta.json — {{"property": "{pid}", "summary": "...what the change does...", "needs": "...what is needed for it to manifest...", "packages_tested": [...], "commands_run": [...], "demo": "how to run the demonstration"}}.
